@@ -131,7 +131,10 @@ fn generators_receive(expect: &Value, key: u64) -> Option<Value> {
     let written = |p: &[(String, String)]| -> String { p.iter().map(|(k, v)| format!(",{}={}", escape(k), escape(v))).collect() };
     // the second working generator gets the pairs in reverse order plus one of its own
     let mut other: Vec<(String, String)> = pairs.iter().rev().cloned().collect();
-    other.push(("own".to_owned(), "2".to_owned()));
+    // its value is of a length that depends on the case: command lines are usually short, and a buffer of a fixed size
+    // for the encoded arguments would go unnoticed otherwise (seeded change C19-s13: 4096 bytes on the stack)
+    const LONG: &[usize] = &[1, 64, 4000, 4096, 5000, 16384, 70000];
+    other.push(("own".to_owned(), "2".repeat(LONG[((key >> 9) % LONG.len() as u64) as usize])));
     let mut argv: Vec<String> = vec!["x.slice".into(), "--diagnostic-format".into(), "json".into()];
     argv.extend(["-G".into(), format!("{}/no-such-generator{}", dir.display(), written(&pairs))]);
     for (name, p) in [("gen1", &pairs), ("gen2", &other)] {
@@ -145,6 +148,10 @@ fn generators_receive(expect: &Value, key: u64) -> Option<Value> {
     // the first working generator once more, with one more pair: every -G is a generator run of its own
     let mut again: Vec<(String, String)> = pairs.clone();
     again.push(("again".to_owned(), "1".to_owned()));
+    // ... and, for two cases in three, several hundred short pairs (many arguments rather than a long one)
+    for i in 0..((key >> 13) % 3) as usize * 400 {
+        again.push((format!("k{i}"), format!("{i}")));
+    }
     argv.extend(["-G".into(), format!("{}{}", dir.join("gen1").display(), written(&again))]);
     let res = crate::fam_driver::run_limited(std::process::Command::new(crate::fam_driver::slicec_bin()).args(&argv).current_dir(&dir), std::time::Duration::from_secs(20));
     let read = |name: &str| std::fs::read(dir.join(format!("{name}.stdin"))).ok();
